@@ -35,20 +35,25 @@ PID = 'C19'
 MANIFEST = {
     'text': 'Coq theorems over an abstract characteristic-0 field, for all inputs: the Euclid-style coefficient loops of '
             'continued_fraction_coeffs / continued_fraction_inverse_coeffs produce quotients whose continued fraction is N/D '
-            '(cf_chain induction, fuel exhaustion excluded by the premise); the ladder fold of cauerI/cauerII (parity of the index '
+            '(cf_chain induction), both loops terminate: above an explicit measure (degree sum / valuations) their result does not depend on the '
+            'fuel, the inverse loop always returns a list, and the fuel used by the Cauer models exceeds the measure, so no refusal of the '
+            'model is an artefact of fuel (SynthTerm.v); the ladder fold of cauerI/cauerII (parity of the index '
             'selects series/parallel and the realiser) builds a network whose impedance is that continued fraction, hence Z; every '
             'pattern realiser (seriesRL ... parallelRLC, RLC), read as a table regenerated from lcapy/synthesis.py on each run, returns '
-            'a network only when the expression is cm/s + c0 + c1 s with the coefficients of its form, and that network has exactly this '
+            'a network only when the expression is cm/s + c0 + c1 s with the coefficients of its form and the translated test before the return is '
+            'the exhaustiveness test (guard_<p>_exhaustive: nothing left in the dictionary), and that network has exactly this '
             'immittance (otherwise the model raises); fosterI/fosterII realise Z given the partial-fraction terms, which the model '
             're-checks by an exact polynomial identity (root finding is an oracle); network(form) dispatch and Network.transform '
-            'preserve the impedance. The hand models (Euclid loops, folds, dispatch, series/parallel with None) are evaluated inside Coq '
+            'preserve the impedance; the default values of the form parameter of Network.transform / ImmittanceMixin.network / '
+            'synthesis.network are translated and exercised by calls that omit the argument. The hand models (Euclid loops, folds, dispatch, series/parallel with None) are evaluated inside Coq '
             '(vm_compute over Qc) against the real code on generated driving-point functions x all forms: same network structure and '
             'element values, same error/no-error, Coq-evaluated impedance equal to the request at rational points.',
     'note': 'Trusted: Coq kernel/vm_compute; tools/tr_synth.py + statement templates in checks/c19.py; tree parser in tools/impl_synth.py; '
             'sympy partfrac/collect/Poly arithmetic inside Lcapy are modelled (one exact division decides the Laurent form; the '
             'partial-fraction terms of the Foster forms are recorded from the run and certified exactly), validated by the '
             'correspondence. Side conditions of the theorems: s <> 0, D(s) <> 0 and no division by zero inside the returned network '
-            '(Zwf). _partial: completeness of the Laurent test (a realisable expression is never rejected) is checked by the '
+            '(Zwf). Positive-realness is not checked by the code and not required by the property: negative element values are returned and '
+            'compared like any other value. _partial: completeness of the Laurent test (a realisable expression is never rejected) is checked by the '
             'correspondence only; functions whose Foster terms have irrational coefficients are covered by the exact oracle only.',
     'technique': 'Coq proof (induction over Euclid chains and ladder folds, field algebra) over hand models + fail-closed ast translator for the '
                  'realiser tables + in-Coq correspondence evaluation + exact sympy round-trip oracle',
@@ -343,6 +348,11 @@ def gen_cases(rng, tier, only_forms=None):
                     Zn, Zd = (En, Ed) if direct else (Ed, En)
                     cases.append({'kind': 'network', 'tag': 'refusal', 'N': Zn, 'D': Zd, 'form': form,
                                   'mode': 'impedance', 'bad': '%s%s' % (kind, '' if k is None else k)})
+    # entry points called WITHOUT a form argument (their own default value applies)
+    for fi, (tag, N, D) in enumerate(funcs):
+        if fi % 5 == 2 and not only_forms:
+            cases.append({'kind': 'network', 'tag': tag, 'N': N, 'D': D, 'form': 'omitted', 'omit': True,
+                          'mode': 'impedance' if N == [0] else modes[fi % 4]})
     # transform of random networks (positive and negative element values)
     nt = 14 if tier == 'quick' else 150
     tforms = ['cauerI', 'cauerII', 'fosterI', 'fosterII']
@@ -355,6 +365,8 @@ def gen_cases(rng, tier, only_forms=None):
             if only_forms and form not in only_forms:
                 continue
             cases.append({'kind': 'transform', 'tag': 'transform', 'net': t, 'form': form})
+        if i % 4 == 1 and not only_forms:
+            cases.append({'kind': 'transform', 'tag': 'transform', 'net': t, 'form': 'omitted', 'omit': True})
     # a few symbolic driving-point functions, instantiated at a rational point for the comparison
     sforms = ['cauerI', 'cauerII', 'fosterI', 'fosterII', 'RLC', 'seriesRLC', 'parallelRLC', 'seriesRL', 'parallelGC']
     for i, (e, names) in enumerate(SYMBOLIC if tier != 'quick' else SYMBOLIC[:6]):
@@ -540,14 +552,29 @@ Definition TM := transform_model (K:=QcF) synth_default synth_forms.
 '''
 
 
+def eff_form(c, tr):
+    """(Coq expression of the form string the entry point receives, name of the method finally run)"""
+    if c.get('omit'):
+        if c['kind'] == 'transform':
+            coq, nm = 'transform_default', tr.transform_default
+        elif c.get('mode') == 'function':
+            coq, nm = 'function_default', tr.function_default
+        else:
+            coq, nm = 'mixin_default', tr.mixin_default
+    else:
+        coq, nm = '"%s"%%string' % c['form'], c['form']
+    return coq, (tr.default if nm == 'default' else nm)
+
+
 def rat_terms(c, r, tr):
     """foster certificate for the model from the recorded realiser arguments; None if unavailable"""
-    if c['form'] not in tr.fosters:
+    fname = eff_form(c, tr)[1]
+    if fname not in tr.fosters:
         return []
     ts = r.get('terms')
     if ts is None or any(t is None for t in ts):
         return None
-    inv = tr.fosters[c['form']]['inv']
+    inv = tr.fosters[fname]['inv']
     return [(t[1], t[0]) if inv else (t[0], t[1]) for t in ts]
 
 
@@ -559,15 +586,15 @@ def case_item(i, c, r, tr):
     obs = {'net': lambda: ('ONet %s' % qtree(r['tree'])) if r.get('tree') is not None else 'OSome',
            'none': lambda: 'ONone', 'error': lambda: 'OErr'}[st]()
     xs = '([%s] : list QcF)' % '; '.join(qc(x) for x in c['xs'])
-    form = '"%s"%%string' % c['form']
+    form, fname = eff_form(c, tr)
     ts = rat_terms(c, r, tr)
     note = 'compared'
     if c['kind'] == 'transform':
         z = 'Zrat_c %s' % qtree(c['net'])
         if ts is None:
             model = None
-        elif c['form'] in tr.fosters and st == 'error':
-            model = '(foster_fold (K:=QcF) fos_%s %s None)' % (c['form'], tsl(ts)) if ts else None
+        elif fname in tr.fosters and st == 'error':
+            model = '(foster_fold (K:=QcF) fos_%s %s None)' % (fname, tsl(ts)) if ts else None
         else:
             model = '(TM %s %s %s)' % (qtree(c['net']), form, tsl(ts))
         N, D = '(fst (%s))' % z, '(snd (%s))' % z
@@ -581,8 +608,8 @@ def case_item(i, c, r, tr):
         N, D = qpoly(Nl), qpoly(Dl)
         if ts is None:
             model = None
-        elif c['form'] in tr.fosters and st == 'error':
-            model = '(foster_fold (K:=QcF) fos_%s %s None)' % (c['form'], tsl(ts)) if ts else None
+        elif fname in tr.fosters and st == 'error':
+            model = '(foster_fold (K:=QcF) fos_%s %s None)' % (fname, tsl(ts)) if ts else None
         else:
             model = '(NM %s %s %s %s)' % (form, N, D, tsl(ts))
     if model is None:
@@ -662,7 +689,7 @@ def main_key(c, what):
 def run(tier='quick', replay=None):
     res = core.Result(PID, tier)
     rng = random.Random(core.seed() * 104729 + 19)
-    core.ensure_theory(['FieldSec', 'PolyQ', 'RatfunCF', 'SynthNet', 'SynthCF', 'SynthPat', 'SynthLadder'])
+    core.ensure_theory(['FieldSec', 'PolyQ', 'RatfunCF', 'SynthNet', 'SynthCF', 'SynthPat', 'SynthLadder', 'SynthTerm'])
     w = core.Work(PID)
     violations = []
     try:
@@ -709,13 +736,13 @@ def run(tier='quick', replay=None):
         w.write('C19.v', texts['C19.v'])
         files.append('C19.v')
         bad = core.gate_text('generated', '\n'.join(texts.values()))
-        theory_files = [os.path.join(core.COQ_THEORY, f + '.v') for f in ('SynthNet', 'SynthCF', 'SynthPat', 'SynthLadder', 'PolyQ', 'RatfunCF')]
+        theory_files = [os.path.join(core.COQ_THEORY, f + '.v') for f in ('SynthNet', 'SynthCF', 'SynthPat', 'SynthLadder', 'SynthTerm', 'PolyQ', 'RatfunCF')]
         bad += core.gate_files(theory_files)
         if bad:
             res.failed_obl.append(('gate', 'generated', '; '.join(bad)))
             res.obligations += 1
         # count the theory's own statements as obligations discharged by the (up-to-date) theory build
-        for tf in theory_files[:4]:
+        for tf in theory_files[:5]:
             n = len(core.obligations_in(open(tf).read()))
             res.obligations += n
             res.discharged += n
